@@ -222,7 +222,9 @@ def random_field(rng: random.Random, used: set[str], versions: list[int], flex_f
 
 
 def _tag(rng: random.Random, f: dict, fv: list[int], flexible_fv: list[int], flex_from: int, tags: set[int], constructs: list[str], last: int) -> None:
-    tag = next(t for t in (rng.randint(0, 6) for _ in range(100)) if t not in tags)
+    tag = next((t for t in (rng.randint(0, 6) for _ in range(40)) if t not in tags), None)
+    if tag is None:
+        tag = max(tags) + 1  # (all small tags taken)
     tags.add(tag)
     start = max(flex_from, fv[0])
     f["taggedVersions"] = f"{start}+"
@@ -273,6 +275,19 @@ def random_definition(rng: random.Random, used_api: set[str], kind: str | None =
                 if g.get("default") == "null":
                     g.pop("default")
             constructs.append("commonStructs")
+            if rng.random() < 0.6:
+                # a second common struct that holds an array of (or a single) first one - declared before or after the one it refers to
+                # (upstream: AddPartitionsToTxnResponse declares TopicResult, which refers to PartitionResult, first)
+                outer = _name(rng, type_names, (2, 3))
+                oused: set[str] = set()
+                common[outer] = {"name": outer, "versions": f"{versions[0]}+", "fields": [
+                    {"versions": f"{versions[0]}+", "name": _name(rng, oused), "type": rng.choice(("int32", "string", "int64"))},
+                    {"versions": f"{versions[0]}+", "name": _name(rng, oused), "type": rng.choice(("[]", "[]", "")) + cname}]}
+                if rng.random() < 0.5:
+                    common = {outer: common[outer], cname: common[cname]}  # forward reference: the referring struct comes first
+                    constructs.append("commonStructs:forward-reference")
+                else:
+                    constructs.append("commonStructs:backward-reference")
         fields = [random_field(rng, used, versions, flex_from, 1, tags, constructs, common, type_names) for _ in range(rng.randint(0 if t != "header" else 1, 8))]
         if common and rng.random() < 0.7:
             # make sure a common struct is referenced from two different parents of the same version (the layout upstream uses when a
